@@ -39,6 +39,25 @@ def scapy_from_spec(spec):
     return cls(hdr + raw)
 
 
+def scapy_reused(spec, warm):
+    """The caller's ONE long-lived packet object: it was built with another TTL / hop limit, has been handed to `warm` (a fingerprint
+    call, result ignored), and has been UPDATED IN PLACE since.  What a function reports for it must follow what it holds now.
+    (Only for packets whose IP header Scapy rebuilds byte for byte from its fields: no link layer, no IPv4 options.)"""
+    s = wire.full(spec)
+    if spec.get("link") or (s["v"] == 4 and s["ipopts"]):
+        return scapy_from_spec(spec)
+    obj = scapy_from_spec(dict(spec, ttl=(s["ttl"] + 37) % 256 or 1))
+    try:
+        warm(obj)
+    except Exception:
+        pass
+    if s["v"] == 4:
+        obj.getlayer("IP").ttl = s["ttl"]
+    else:
+        obj.getlayer("IPv6").hlim = s["ttl"]
+    return obj
+
+
 def scapy_from_bytes(raw, v):
     return (ScapyIP if v == 4 else ScapyIPv6)(raw)
 
